@@ -607,22 +607,28 @@ class MemOrchestrator(BaseOrchestrator):
         current_time = time()
         cutoff_time = current_time - timeout_seconds
 
+        # Snapshot the RUNNING records FIRST and read the heartbeats afterwards: a runner registers
+        # its heartbeat before it starts an invocation, so whatever is RUNNING in the snapshot has
+        # its owner's heartbeat visible in the later read.  (Reading the heartbeats first let a
+        # runner that appeared in between be judged dead.)
+        running_records = [
+            (invocation_id, self.invocation_status_record.get(invocation_id))
+            for invocation_id in list(
+                self.status_index.get(InvocationStatus.RUNNING, set())
+            )
+        ]
+
         # Get set of active runner IDs (those with recent heartbeats)
         active_runner_ids = {
             runner_id
-            for runner_id, last_heartbeat in self.runner_last_heartbeat.items()
+            for runner_id, last_heartbeat in list(self.runner_last_heartbeat.items())
             if last_heartbeat >= cutoff_time
         }
 
-        # Create a snapshot to avoid RuntimeError when status changes during iteration
-        running_invocations = list(
-            self.status_index.get(InvocationStatus.RUNNING, set())
-        )
-
-        for invocation_id in running_invocations:
-            status_record = self.invocation_status_record.get(invocation_id)
+        for invocation_id, status_record in running_records:
             if (
                 status_record
+                and status_record.status == InvocationStatus.RUNNING
                 and status_record.runner_id
                 and status_record.runner_id not in active_runner_ids
             ):
